@@ -24,17 +24,21 @@ func TestFDLeak(t *testing.T) {
 		return m
 	}
 	p := sim.DefaultParams()
-	for i := 0; i < 3; i++ {
+	for i := 0; i < 6; i++ {
 		w, err := hist.NewWorld(p, hist.Roles(p, 1))
 		if err != nil {
 			t.Fatal(err)
 		}
 		w.Init()
-		w.RunBlock(sim.BlockSpec{GapSecs: 5})
+		for k := 0; k < 15; k++ {
+			w.RunBlock(sim.BlockSpec{GapSecs: 5})
+			_ = w.Primary().DumpMap()
+		}
 		w.Close()
 		m := count()
-		fmt.Fprintf(out, "after %d: %d fds\n", i, len(m))
-		if i == 2 {
+		es, _ := os.ReadDir("/proc/self/fd")
+		fmt.Fprintf(out, "after %d: %d fds (%d distinct)\n", i, len(es), len(m))
+		if i == 5 {
 			for k, v := range m {
 				fmt.Fprintf(out, "  %d %s\n", v, k)
 			}
